@@ -45,6 +45,7 @@ CONSTANTS Procs,      \* request slots, a set of positive integers
                       \* "min": the lowest free one, else new (deterministic, for generators);
                       \* "own": slot p always gets object p (an ideal pool without sharing: lets TLC
                       \*        study the pools one at a time with three requests)
+          FormOf,     \* [Procs -> Forms]: the request-target form of each slot's request
           MwEnabled,  \* BOOLEAN: the middleware's level is enabled in the base handler.  When it is
                       \* not, "started" / "finished" are not emitted (and rw.code is never read), but the
                       \* context logger must carry the request's attributes all the same: the inner
@@ -88,7 +89,8 @@ FirstStep == IF Fast THEN "getreq" ELSE "getattr"
 LgRid(l) == IF l.k = "ref" THEN attrObj[l.a] ELSE l.v
 
 (* The calls process p has completed so far, as its own client must see them. *)
-Wrote(p) == [i \in 1..(ip[p] - 1) |-> [op |-> ops[p][i].op, c |-> ops[p][i].c, by |-> rid[p]]]
+Wrote(p) == LET done == [i \in 1..(ip[p] - 1) |-> [op |-> ops[p][i].op, c |-> ops[p][i].c, by |-> rid[p]]]
+            IN SelectSeq(done, LAMBDA e : ~(e.op = "hj" /\ e.c = 3))     \* no Hijacker underneath: nothing to receive
 
 Max(a, b) == IF a > b THEN a ELSE b
 Cand(pol, free, n, p) ==
@@ -112,8 +114,8 @@ InitWith(o) ==
     /\ nA = InitN(PolA) /\ nQ = InitN(PolQ) /\ nW = InitN(PolW)
     /\ freeA = {} /\ freeQ = {} /\ freeW = {}
     /\ attrObj = InitObjs(PolA, 0)
-    /\ reqObj = InitObjs(PolQ, [rid |-> 0, lg |-> NoLogger])
-    /\ rwObj = InitObjs(PolW, [cl |-> 0, code |-> 0])
+    /\ reqObj = InitObjs(PolQ, [rid |-> 0, lg |-> NoLogger, tm |-> 0])
+    /\ rwObj = InitObjs(PolW, [cl |-> 0, code |-> 0, hj |-> FALSE])
     /\ hA = [p \in Procs |-> 0] /\ hQ = [p \in Procs |-> 0] /\ hW = [p \in Procs |-> 0]
     /\ lg = [p \in Procs |-> NoLogger]
     /\ fincode = [p \in Procs |-> 0]
@@ -124,6 +126,15 @@ InitWith(o) ==
 Init == \E o \in InitOps : InitWith(o)
 
 Goto(p, l) == pc' = [pc EXCEPT ![p] = l]
+
+(* request-target forms per slot (a .cfg cannot hold functions) *)
+FormSeq(a, b, c) == [p \in Procs |-> IF p = 1 THEN a ELSE IF p = 2 THEN b ELSE c]
+FormsOrigin == [p \in Procs |-> "origin"]
+FormsOAU == FormSeq("origin", "absolute", "authority")
+FormsAUS == FormSeq("absolute", "authority", "asterisk")
+FormsUEO == FormSeq("authority", "escaped", "origin")
+FormsSAE == FormSeq("asterisk", "absolute", "escaped")
+FormsEOA == FormSeq("escaped", "origin", "absolute")
 
 (* Program order.  As written, and with one Put moved (design mutations).   *)
 AsWrittenAfter(s) ==
@@ -189,7 +200,10 @@ GetReqObj(p, q) ==
     /\ q \in Cand(PolQ, freeQ, nQ, p)
     /\ nQ' = Max(nQ, q)
     /\ freeQ' = freeQ \ {q}
-    /\ reqObj' = Put(reqObj, q, [rid |-> rid[p], lg |-> lg[p]])
+    /\ reqObj' = Put(reqObj, q, [rid |-> rid[p], lg |-> lg[p],
+                                  \* CopyRequestTo is a shallow copy: the copy shares the client's maps, in
+                                  \* particular the Trailer map net/http fills when the body reaches EOF
+                                  tm |-> IF Variant = "cloneRequest" THEN 0 ELSE rid[p]])
     /\ hQ' = [hQ EXCEPT ![p] = q]
     /\ Goto(p, After("getreq"))
     /\ UNCHANGED <<rid, ops, ip, nA, nW, freeA, freeW, attrObj, rwObj, hA, hW, lg, fincode,
@@ -202,7 +216,8 @@ GetRwObj(p, w) ==
     /\ nW' = Max(nW, w)
     /\ freeW' = freeW \ {w}
     /\ rwObj' = Put(rwObj, w, [cl |-> rid[p],
-                               code |-> IF Variant = "noCodeReset" /\ w <= nW THEN rwObj[w].code ELSE 0])
+                               code |-> IF Variant = "noCodeReset" /\ w <= nW THEN rwObj[w].code ELSE 0,
+                               hj |-> IF Variant = "stickyHijack" /\ w <= nW THEN rwObj[w].hj ELSE FALSE])
     /\ hW' = [hW EXCEPT ![p] = w]
     /\ Goto(p, After("getrw"))
     /\ UNCHANGED <<rid, ops, ip, nA, nQ, freeA, freeQ, attrObj, reqObj, hA, hQ, lg, fincode,
@@ -220,8 +235,14 @@ Started(p) ==
 (* What the inner handler of p observes right now: the request in the pooled *)
 (* *http.Request it was given, the request whose attributes its context      *)
 (* logger carries, and the client writer behind the wrapper it was given.    *)
-RwOf(p) == IF hW[p] = 0 THEN [cl |-> rid[p], code |-> 0] ELSE rwObj[hW[p]]   \* no wrapper: the client's own writer
-Obs(p) == [seen |-> reqObj[hQ[p]].rid, lr |-> LgRid(reqObj[hQ[p]].lg), cl |-> RwOf(p).cl]
+RwOf(p) == IF hW[p] = 0 THEN [cl |-> rid[p], code |-> 0, hj |-> FALSE] ELSE rwObj[hW[p]]   \* no wrapper: the client's own writer
+Obs(p) == [seen |-> reqObj[hQ[p]].rid, lr |-> LgRid(reqObj[hQ[p]].lg), cl |-> RwOf(p).cl, tm |-> reqObj[hQ[p]].tm]
+
+(* The request_uri attribute of a logger that carries the attributes of     *)
+(* request r: as written it is r's RequestURI field.                         *)
+FormOfRid(r) == IF \E t \in Procs : rid[t] = r THEN FormOf[CHOOSE t \in Procs : rid[t] = r] ELSE "origin"
+UriAttr(r) == IF Variant = "urlRequestURI" THEN UrlRequestURIOf(FormOfRid(r)) ELSE RequestURIOf(FormOfRid(r))
+UriOK(p, r) == UriAttr(r) = RequestURIOf(FormOf[p])
 ProbeRec(p) == [m |-> "probe", by |-> rid[p], ar |-> Obs(p).lr, c |-> 0]
 
 HPre(p) ==
@@ -231,13 +252,24 @@ HPre(p) ==
     /\ UNCHANGED <<rid, ops, ip, nA, nQ, nW, freeA, freeQ, freeW, attrObj, reqObj, rwObj,
                    hA, hQ, hW, lg, fincode, client, stray>>
 
-(* The wrapper's half of the call: WriteHeader records the code. *)
+(* The wrapper's half of the call: WriteHeader records the code; Hijack and  *)
+(* Flush are forwarded (Hijack by the wrapper's own method, Flush through    *)
+(* Unwrap).  As written the wrapper keeps no other state.  (Variant          *)
+(* "stickyHijack": a successful Hijack sets a flag that makes the wrapper    *)
+(* swallow later Write / WriteHeader calls and that Reset does not clear.)   *)
+Sticky == Variant = "stickyHijack"
+Swallowed(p, o) == Sticky /\ hW[p] # 0 /\ rwObj[hW[p]].hj /\ o.op \in {"w", "wh"}
+NotCalled(p, o) == (o.op = "hj" /\ o.c = 3) \/ Swallowed(p, o)     \* the client writer is not reached
 Op(p) ==
     /\ pc[p] = "op"
     /\ LET o == ops[p][ip[p]] IN
-         rwObj' = IF o.op = "wh" /\ hW[p] # 0 THEN [rwObj EXCEPT ![hW[p]].code = o.c] ELSE rwObj
-    /\ Goto(p, "cw")
-    /\ UNCHANGED <<rid, ops, ip, nA, nQ, nW, freeA, freeQ, freeW, attrObj, reqObj,
+         /\ rwObj' = IF hW[p] = 0 \/ Swallowed(p, o) THEN rwObj
+                      ELSE IF o.op = "wh" THEN [rwObj EXCEPT ![hW[p]].code = o.c]
+                      ELSE IF o.op = "hj" /\ o.c = 1 /\ Sticky THEN [rwObj EXCEPT ![hW[p]].hj = TRUE]
+                      ELSE rwObj
+         /\ ip' = IF NotCalled(p, o) THEN [ip EXCEPT ![p] = @ + 1] ELSE ip
+         /\ Goto(p, IF ~NotCalled(p, o) THEN "cw" ELSE IF ip[p] = Len(ops[p]) THEN "hpost" ELSE "op")
+    /\ UNCHANGED <<rid, ops, nA, nQ, nW, freeA, freeQ, freeW, attrObj, reqObj,
                    hA, hQ, hW, lg, fincode, client, stray, records>>
 
 (* The client writer's half: the call reaches whatever writer the wrapper   *)
@@ -357,9 +389,18 @@ HandlerSeesOwn == \A p \in Procs : pc[p] \in InHandler =>
                      /\ Obs(p).seen = rid[p]
                      /\ Obs(p).lr = rid[p]
                      /\ Obs(p).cl = rid[p]
+                     /\ Obs(p).tm = rid[p]          \* its trailers are the client's (filled at body EOF)
+                     /\ UriOK(p, Obs(p).lr)         \* request_uri = the RequestURI the client sent
 
 (* The middleware's own records carry its own request's attributes. *)
-LoggerOwn == \A p \in Procs : pc[p] \in {"started", "finished"} => LgRid(lg[p]) = rid[p]
+LoggerOwn == \A p \in Procs : pc[p] \in {"started", "finished"} =>
+                 /\ LgRid(lg[p]) = rid[p]
+                 /\ UriOK(p, LgRid(lg[p]))
+
+(* Fresh after Reset: the wrapper a request got from the pool is, in every   *)
+(* field, what NewCodeRecorderResponseWriter(w) would have given it.         *)
+FreshAfterReset == \A p \in Procs : (pc[p] = "started" /\ hW[p] # 0) =>
+                      rwObj[hW[p]] = [cl |-> rid[p], code |-> 0, hj |-> FALSE]
 
 (* The finished record reports the code this invocation set, or 200. *)
 FinishedCode == \A p \in Procs : (MwEnabled /\ pc[p] = "finished") =>
